@@ -304,7 +304,12 @@ theorem runConv_off {h' : HV} {c : Conv} (hc : runConv m h c = some h') (ho : Of
       rw [Off.into_raw_off m hnt, ho.blk (by rw [hcond.1]; rfl), hcond.2, Nat.zero_add,
         dataOff_dyn_sized _ (fatLen h)]
       exact Nat.sub_self _
-    · cases hc
+    · split at hc
+      · rename_i hcond; cases hc
+        -- the unsizing coercion of a `UniqueArc` keeps the stored (block) address
+        have hb : h.kind.isBlockAddr = true := by rw [hcond.1]; rfl
+        exact ho.blkBlk hb (h' := { h with ty := .dyn }) hb rfl
+      · cases hc
 
 end
 
